@@ -83,6 +83,11 @@ CLAIMED = {
             "match = covered-by-some-added-host, len/iter = minimal elements; recorded histories of the real class (spellings from a TLA+ table) "
             "are validated step by step.",
             "Trusted: TLC, the spelling table in C09.tla (cross-checked against python idna at run time), the URL forms of the query table."),
+    "C15": ("DESIGN.md section 4 / C15",
+            "TLA+ step machine with a reference inference step; TLC checks safety (every step shortens the URL, is embedded) and liveness (a fixed point is reached under weak fairness, no state constraint) on the redirect grammar; grammar closed under the machine replayed into infer_redirection (step chains + recursive call); TLC trace validation",
+            "TLC proves on the reference step machine that inference terminates (strictly decreasing length, eventual fixed point) and judges the real function's "
+            "chains of non-recursive applications and its recursive result: each step must be the input or an embedded target, the recursive result the limit and a fixed point.",
+            "Trusted: TLC; candidate set Embedded() in C15.tla; time is not modelled (RecursionError / 5 s timeout / step budget instead)."),
     "C20": ("DESIGN.md section 4 / C20",
             "ensure/force/strip as TLA+ operators with the five laws model checked by TLC over all short strings x protocols; TLC-enumerated strings and builder argument combinations replayed into the real helpers; TLA+ contracts (query decodes to retained arguments, single-slash join, fragment, read-back, pathsplit) judged by the trace spec; two recorded known findings",
             "TLC checks the protocol laws on the model (and that they can only fail on nested-protocol inputs), and judges every observed result of "
